@@ -343,6 +343,37 @@ def feasible (p : Problem) (s : Solution) : List String := Id.run do
 
 def near (a b : Int) : Bool := decide (a - b ≤ 1 ∧ b - a ≤ 1)
 
+/-- vicinity clustering: every reported commute leg is the routing data of the clustering profile (`prof`, unscaled) between
+    the parking place and the activity, in the direction travelled: forward = other end -> activity, backward = activity ->
+    other end; its time interval lasts exactly the matrix duration -/
+def commuteReplay (p : Problem) (prof : Nat) (s : Solution) : List String := Id.run do
+  let mut errs : List String := []
+  let some pr := p.profiles[prof]? | return ["clustering profile is not defined"]
+  for t in s.tours do
+    for st in t.stops do
+      for a in st.activities do
+        let some here := (a.loc.orElse (fun _ => st.loc)) | continue
+        match a.fwd with
+        | some l =>
+          if l.loc != here || l.dist != 0 || l.start != l.stop then
+            match pr.dur[l.loc * p.n + here]?, pr.dist[l.loc * p.n + here]? with
+            | some d, some ds =>
+              if !(near (l.stop - l.start) d && near l.dist ds) then
+                errs := s!"{t.vehicleId}: {a.jobId} forward commute {l.loc}->{here} reports {l.dist} / {l.stop - l.start}s, routing data {ds} / {d}s" :: errs
+            | _, _ => errs := s!"{t.vehicleId}: {a.jobId} forward commute has no matrix entry" :: errs
+        | none => pure ()
+        match a.bwd with
+        | some l =>
+          if l.loc != here || l.dist != 0 || l.start != l.stop then
+            match pr.dur[here * p.n + l.loc]?, pr.dist[here * p.n + l.loc]? with
+            | some d, some ds =>
+              if !(near (l.stop - l.start) d && near l.dist ds) then
+                errs := s!"{t.vehicleId}: {a.jobId} backward commute {here}->{l.loc} reports {l.dist} / {l.stop - l.start}s, routing data {ds} / {d}s" :: errs
+            | _, _ => errs := s!"{t.vehicleId}: {a.jobId} backward commute has no matrix entry" :: errs
+        | none => pure ()
+  return errs.reverse
+
+
 def replay (p : Problem) (s : Solution) : List String := Id.run do
   let mut errs : List String := []
   let mut sum : Stat := ⟨0, 0, 0, 0, 0, 0, 0, 0, 0⟩
